@@ -582,6 +582,13 @@ func (w *world) judge(tx *transaction.Transaction, o op, pre ledger, r stepResul
 		if r.class != "rejected" {
 			add("class:fee-unaffordable-not-rejected:"+r.class, "balance %s < move-balance fee %s", bal, moveFee)
 		}
+	case flagSets[w.cfg.Flags].Penalize && bal.Cmp(vPlus(fullFee)) >= 0:
+		// with the penalize-too-much-gas flag active the sender is charged ComputeTxFee, so a
+		// balance covering value + that fee is sufficient: a failure "for insufficient funds"
+		// would not be a real one (added after the independent seed C23-1)
+		if r.class != "success" {
+			add("class:transfer-affordable-at-the-charged-fee-not-executed:"+r.class, "penalize flag on, balance %s >= value %s + ComputeTxFee %s (gasLimit*gasPrice %s); error %v", bal, tx.Value, fullFee, maxCost, r.err)
+		}
 	case bal.Cmp(vPlus(maxCost)) >= 0:
 		if r.class != "success" {
 			add("class:affordable-transfer-not-executed:"+r.class, "balance %s >= value %s + gasLimit*gasPrice %s; error %v", bal, tx.Value, maxCost, r.err)
@@ -765,7 +772,7 @@ func main() {
 			"values are relative to the sender's balance: {0, 1, bal-gasLimit*gasPrice, +1, bal-moveFee, +1, bal+1} (negative ones dropped); nonce in {acc-1 (if acc>0), acc, acc+1}; gasLimit in {50000, 50001}; gasPrice in {10^9, 2*10^9}",
 			"a transaction returning an error other than ErrFailedTransaction is followed by RevertToSnapshot(journal length before it) like createAndProcessMiniBlocksFromMe does; the fee accumulator is not reverted (the caller does not revert it either); no Commit between the transactions of a sequence",
 			"'the fee' of the statement = the amount added to the fee accumulator by the transaction; it must be > 0, <= gasLimit*gasPrice and equal to economics.ComputeMoveBalanceFee(tx) or ComputeTxFee(tx) (the code collects the former on success and the latter on an insufficient-funds failure; unused gas of a move is refunded, the refund receipt moves no balance)",
-			"class demanded by the reference ledger: wrong nonce or balance < move fee => rejected without any change; balance >= value + gasLimit*gasPrice (and right nonce) => success; gasLimit*gasPrice <= balance < value + move fee => fee-only failure; in the remaining band (flag dependent) any class whose own accounting is exact is accepted",
+			"class demanded by the reference ledger: wrong nonce or balance < move fee => rejected without any change; balance >= value + gasLimit*gasPrice (and right nonce) => success; gasLimit*gasPrice <= balance < value + move fee => fee-only failure; with the penalize flag on, balance >= value + ComputeTxFee => success; in the remaining band (flag off: between value+ComputeTxFee and value+gasLimit*gasPrice, a documented backwards-compatibility rule) any class whose own accounting is exact is accepted",
 			"sequences are merged by state (accounts-trie root hash per configuration): a state reached by several histories is extended once; rejected transactions are verified to leave balances, nonces and the trie root unchanged and are therefore not extended; siblings are explored by RevertToSnapshot backtracking whose exactness (root hash, ledger) is verified every time",
 		}
 		s := &searcher{c: c, seen: map[string]struct{}{}}
